@@ -212,6 +212,21 @@ CLAIMED = {
             "Trusted: the textual rewrite of the import stubs; a low-address arena so that rep pointers survive the i32 round trip the "
             "bindings make; error-context handles and fallible constructors are not in the fixed world.",
             "12.7"),
+    "C08": ("model_checking",
+            "TLA+ AsyncCall.tla: the protocol of one guest task with a component-model host (async-lower subtasks, waitable sets, callback "
+            "codes, task.return / task.cancel) as one transition function, model-checked against every guest that respects the guards x "
+            "every host schedule (MC_AsyncCall, which also emits the schedules); the real Rust bindings generated with --async filters "
+            "and /repo's real async runtime run natively against a spec-driven async host (harness/vhost ahost.rs) under those schedules "
+            "with the value vectors of C05 (MC_RustExec over CallConv); TLC validates the event log of every task (Trace_AsyncCall) and "
+            "the host compares every lowered value with the canonical encoding at the moment a real host would read it",
+            "Signatures x values of MC_RustExec (all types of the level-1 universe, parameter lists across the 4 / 16 flat limits, "
+            "results of all shapes) x {imports and export async, export only, imports only (block_on)} x per async import call "
+            "{returned at once, started at the call, starting then started, starting then returned} x cancellation at every wait "
+            "(quick: a rotating slice per signature; thorough: all schedules).",
+            "Trusted: the async host (its answers are checked against the spec on every event: a disagreement is a tool error), the "
+            "heap ledger with the low arena (freed guest memory is never reused, so reading parameters that were freed too early is "
+            "seen), the textual rewrite of the import stubs. One task at a time; futures, streams, resources as values are not in it.",
+            "12.9"),
     "C09": ("exploration",
             "WorldGrammar.tla worlds (TLC GEN) + adversarial-name worlds + corpus -> real Rust generator x all crates/test variants + "
             "--raw-strings -> rustc (host target, -Dwarnings, editions 2021/2024, real wit_bindgen runtime) and ComponentEncoder on the "
@@ -352,13 +367,7 @@ def main():
         f.write("\n")
 
 
-NOT_APPLICABLE = {
-    "C08": "Not decided by this machinery (DESIGN.md 12.8): it needs the value-level host of C05 (canonical encodings from CallConv.tla) and "
-           "the scheduling host of C18-C23 (CMHost.tla) in one process, i.e. an async-capable spec-driven host executing the Rust backend's "
-           "async glue with real values; that harness was not built. Covered separately: the shared generator's async calling convention "
-           "(C02: AsyncExport/AsyncImport automaton, task.return once, parameter record), the runtime half of an async import (C21), the "
-           "async core surface (C13, C17). Not observed by any check: generate_guest_import_body_async / start_task wiring moving values.",
-}
+NOT_APPLICABLE = {}
 
 if __name__ == "__main__":
     main()
